@@ -726,3 +726,112 @@ def _ref_target(b, l, depth=0):
             src = r["p"]["l"] if r["k"] in ("ref", "rawptr") else r["o"]["p"]["l"]
             return _ref_target(b, src, depth + 1)
     return None
+
+
+def rule_row_key_binding(S, res):
+    """R2.key: the AEAD key and nonce of a garbled row bind all four components of the GarblingKey
+    (both input labels, gate index, row index): in garble::key_and_nonce every write into the key /
+    nonce array has a constant byte range, the ranges are pairwise disjoint (a later write never
+    replaces an earlier one) and every field of the GarblingKey reaches one of them.  Garbler and
+    evaluator share the function, so honest runs cannot notice a component that is left out."""
+    import re
+    fg = S.fg
+    fam = [(k, b) for k, b in fg.bodies.items() if b.owner.endswith("mpc::garble::key_and_nonce") and b.id == b.owner]
+    if not fam:
+        res.bad("R2.key", "key_and_nonce", "cannot locate mpc::garble::key_and_nonce")
+        return
+    k, b = fam[0]
+    # fields of the parameter
+    field_of = {}
+    for blk in b.blocks:
+        for st in blk["s"]:
+            if st["k"] == "assign" and not st["p"]["pr"] and st["r"]["k"] in ("ref", "use"):
+                pl = st["r"]["p"] if st["r"]["k"] == "ref" else (st["r"]["o"]["p"] if st["r"]["o"]["k"] != "const" else None)
+                if pl is None:
+                    continue
+                fl_ = [e for e in pl["pr"] if isinstance(e, dict) and e.get("n") and "GarblingKey" in (e.get("a") or "")]
+                if fl_:
+                    field_of[st["p"]["l"]] = fl_[-1]["n"]
+    arrays = {i: int(m.group(1)) for i, l in enumerate(b.locals) for m in [re.match(r"\[u8; (\d+)\]$", l["ty"])] if m}
+    writes = []   # (array local, lo, hi, fields, block)
+
+    def fields_in(operand):
+        back = fg.backward(fg.operand_nodes(k, operand), node_ok=lambda x: x[0] == k)
+        return {field_of[x[1]] for x in back if x[1] in field_of}
+
+    def const_of(o):
+        if o["k"] == "const":
+            try:
+                return int(o.get("v"))
+            except (TypeError, ValueError):
+                return None
+        d = defs_of(b, o["p"]["l"]) if not o["p"]["pr"] else []
+        if len(d) == 1 and d[0][1] != "t" and d[0][2]["k"] == "use":
+            return const_of(d[0][2]["o"])
+        return None
+    unknown = []
+    for bi, t in b.calls():
+        cn = callee_names(t)
+        tl = cn[-1].rsplit("::", 1)[-1] if cn else ""
+        if tl not in ("copy_from_slice", "clone_from_slice", "fill"):
+            continue
+        # destination: &mut (*index_mut(&mut arr, range))
+        dst = t["args"][0]
+        dback = fg.backward(fg.operand_nodes(k, dst), node_ok=lambda x: x[0] == k, edge_ok=lambda e: e.kind in ("copy", "ref"))
+        rng = None
+        arr = None
+        for cbi, ct in b.calls():
+            if ct["d"]["l"] in {x[1] for x in dback} and callee_names(ct) and callee_names(ct)[0].endswith("IndexMut::index_mut"):
+                arr = root_local_(b, ct["args"][0])
+                rd = defs_of(b, ct["args"][1]["p"]["l"]) if ct["args"][1]["k"] != "const" else []
+                if len(rd) == 1 and rd[0][1] != "t" and rd[0][2]["k"] == "agg":
+                    adt = rd[0][2].get("adt") or ""
+                    ops = [const_of(o) for o in rd[0][2]["ops"]]
+                    n_ = arrays.get(arr)
+                    if adt.endswith("RangeTo") and ops and ops[0] is not None:
+                        rng = (0, ops[0])
+                    elif adt.endswith("RangeFrom") and ops and ops[0] is not None and n_ is not None:
+                        rng = (ops[0], n_)
+                    elif adt.endswith("::Range") and len(ops) == 2 and None not in ops:
+                        rng = (ops[0], ops[1])
+                    elif adt.endswith("RangeFull") and n_ is not None:
+                        rng = (0, n_)
+        if arr in arrays:
+            if rng is None:
+                unknown.append(bi)
+            else:
+                writes.append((arr, rng[0], rng[1], fields_in(t["args"][1]) if len(t["args"]) > 1 else set(), bi))
+    for bi, blk in enumerate(b.blocks):
+        for st in blk["s"]:
+            if st["k"] == "assign" and st["p"]["l"] in arrays and st["p"]["pr"]:
+                ix = [e for e in st["p"]["pr"] if isinstance(e, dict) and "i" in e]
+                if ix:
+                    c = const_of({"k": "copy", "p": {"l": ix[0]["i"], "pr": []}})
+                    if c is None:
+                        unknown.append(bi)
+                    else:
+                        ops = [st["r"].get("o")] if st["r"]["k"] == "use" else []
+                        writes.append((st["p"]["l"], c, c + 1, set().union(*[fields_in(o) for o in ops if o and o["k"] != "const"]) if ops else set(), bi))
+    probs = []
+    if unknown:
+        probs.append(("a write into the key / nonce array has no constant byte range", unknown[0]))
+    for i_, w1 in enumerate(writes):
+        for w2 in writes[i_ + 1:]:
+            if w1[0] == w2[0] and w1[1] < w2[2] and w2[1] < w1[2]:
+                probs.append(("bytes %d..%d (from %s) and %d..%d (from %s) of `%s` overlap: one component replaces the other and is no longer bound into the row key"
+                              % (w1[1], w1[2], sorted(w1[3]) or "?", w2[1], w2[2], sorted(w2[3]) or "?", b.locals[w1[0]]["name"] or "?"), w2[4]))
+    all_fields = set(field_of.values())
+    bound = set().union(*[w[3] for w in writes]) if writes else set()
+    for f in sorted(all_fields - bound):
+        probs.append(("GarblingKey.%s does not reach the key or the nonce" % f, 0))
+    if len(all_fields) < 4:
+        probs.append(("only %d of the 4 GarblingKey fields are read" % len(all_fields), 0))
+    if probs:
+        res.bad("R2.key", "key_and_nonce", probs[0][0], where(b, probs[0][1]))
+    else:
+        res.ok("R2.key", "key_and_nonce", fl(b.span), "%d writes with pairwise disjoint constant ranges bind %s" % (len(writes), sorted(bound)))
+
+
+def root_local_(b, o):
+    from an import root_local
+    return root_local(b, o)
